@@ -177,7 +177,7 @@ class VArr(_np.ndarray):
 
     def __setitem__(self, key, value):
         CTX.tick()
-        if isinstance(key, GA) or _is_symmask(key):
+        if isinstance(key, GA) or _is_symmask(key) or (isinstance(key, tuple) and _b.any(isinstance(k, GA) or _is_symmask(k) for k in key)):
             raise Unsupported("store through a symbolic selection")
         if isinstance(key, tuple) and _b.any(isinstance(k, SV) for k in key):
             key = tuple(int(k) if isinstance(k, SV) else k for k in key)
@@ -464,6 +464,17 @@ class GA:
         return s._bin(o, lambda a, b: a >= b)
 
     def __getitem__(s, key):
+        if isinstance(key, (int, _np.integer)) and not isinstance(key, (bool, _np.bool_)):
+            # the key-th present element: forks over which candidate that is
+            if key < 0:
+                raise Unsupported("negative index into a guarded selection")
+            seen = 0
+            for g, v in zip(s.guards, s.vals):
+                if bool(g):
+                    if seen == key:
+                        return v
+                    seen += 1
+            raise IndexError("index out of bounds for the selection")
         if isinstance(key, GA):
             raise Unsupported("guarded selection indexed by a guarded selection")
         if _is_symmask(key):
@@ -923,6 +934,12 @@ def where(cond, x=None, y=None):
 
 def nonzero(a):
     return where(a)
+
+
+def flatnonzero(a):
+    if isinstance(a, _np.ndarray) and a.ndim == 1:
+        return where(a)[0]
+    return where(_W(_np.asarray(a).ravel()))[0]
 
 
 def argmin(a, axis=None):
